@@ -160,6 +160,47 @@ def lasdata_layer(ck, n_cases):
                     ck.fail(f"LAS 1.{minor}: after an append session the file carries {int.from_bytes(ap.getvalue()[6:8], 'little')}, it was {expect}", dict(inp, step="append"))
         except Exception as e:
             ck.fail(f"LAS 1.{minor}: file round trip of the field raised {type(e).__name__}: {e}", inp)
+        # the same object written a second time after a flag was set in place; a copy of the written header; a flag set on the
+        # writer's header before the session is closed
+        try:
+            import copy
+            flag, bit = ck.rng.choice(FLAGS)
+            b = 1 - ((expect >> bit) & 1)
+            how = ["lasdata_written_twice", "header_write_to_twice", "deepcopy_of_written_header", "flag_on_writer_header"][ci % 4]
+            want2 = (expect & ~(1 << bit)) | (b << bit)
+            val = GpsTimeType(b) if flag == "gps_time_type" else bool(b)
+            inp2 = dict(inp, step=how, then=f"{flag}={b}")
+            ck.count("second_write:" + how)
+            if how == "lasdata_written_twice":
+                setattr(las.header.global_encoding, flag, val)
+                b2 = io.BytesIO()
+                las.write(b2)
+                got = int.from_bytes(b2.getvalue()[6:8], "little")
+            elif how == "header_write_to_twice":
+                h1 = io.BytesIO()
+                las.header.write_to(h1)
+                setattr(las.header.global_encoding, flag, val)
+                h2 = io.BytesIO()
+                las.header.write_to(h2)
+                got = int.from_bytes(h2.getvalue()[6:8], "little")
+            elif how == "deepcopy_of_written_header":
+                hc = copy.deepcopy(las.header)
+                setattr(hc.global_encoding, flag, val)
+                h2 = io.BytesIO()
+                hc.write_to(h2)
+                got = int.from_bytes(h2.getvalue()[6:8], "little")
+                if las.header.global_encoding.value != expect:
+                    ck.fail(f"LAS 1.{minor}: a flag set on a copy of the header changed the original's field to {las.header.global_encoding.value}", inp2)
+            else:
+                b2 = io.BytesIO()
+                with laspy.open(b2, mode="w", header=las.header, closefd=False) as w:
+                    w.write_points(las.points)
+                    setattr(w.header.global_encoding, flag, val)
+                got = int.from_bytes(b2.getvalue()[6:8], "little")
+            if got != want2:
+                ck.fail(f"LAS 1.{minor}: {how}: after {flag}={b} the bytes written carry {got:#06x}, the field is {want2:#06x}", inp2)
+        except Exception as e:
+            ck.fail(f"LAS 1.{minor}: second write of the field raised {type(e).__name__}: {e}", inp)
 
 
 def run(ck):
